@@ -91,6 +91,10 @@ class Durations(Sub):
     shards = {"quick": 3, "thorough": 8}
     rule = "PnYnMnDTnHnMnS (any subset) and PnW, integer components up to 10 digits, optional fraction (1-30 digits, '.' or ',') on the smallest component; non-trivial: a fraction is present, or >= 3 components, or a component >= 2^31"
 
+    def describe(self, case):
+        s, y, mo, rest, big = render_duration(case)
+        return {"string": s, "years": y, "months": mo, "exact_rest_seconds": str(rest)}
+
     def strategy(self, ctx):
         return duration_case()
 
@@ -185,7 +189,8 @@ def interval_case(draw):
             "dur": {"y": draw(st.sampled_from([0, 0, 1]) | st.integers(0, 30)), "mo": draw(st.sampled_from([0, 0, 1, 12, 13]) | st.integers(0, 40)),
                     "d": draw(st.sampled_from([0, 1]) | st.integers(0, 400)), "h": draw(st.sampled_from([0, 1]) | st.integers(0, 100)),
                     "mi": draw(st.sampled_from([0]) | st.integers(0, 200)), "s": draw(st.sampled_from([0]) | st.integers(0, 5000)),
-                    "frac": draw(st.sampled_from(["", "", "5", "25", "123456", "1234567"]))}}
+                    "frac": draw(st.sampled_from(["", "", "5", "25", "123456", "1234567"]))},
+            "zero": draw(st.sampled_from(["PT0S", "P0D", "P0W", "P0Y0M0DT0H0M0S", "PT0M", "P0Y", "PT0,0000004S", "PT0.0S", "P0M0D"]))}
 
 
 def iso(w: D.datetime, off, z):
@@ -240,9 +245,11 @@ class Intervals(Sub):
             t += f"{c['s']}" + (("." + c["frac"]) if c["frac"] else "") + "S"
         if t:
             ds += "T" + t
-        if ds == "P":
-            raise Skip("empty duration")
         rest = (Fraction(c["d"]) * 86400 + c["h"] * 3600 + c["mi"] * 60 + c["s"] + (Fraction(int(c["frac"]), 10 ** len(c["frac"])) if c["frac"] else 0)) * US
+        if ds == "P":
+            # every component is zero: a zero-length duration, spelled in one of the valid ways (count 0 is a boundary of its own)
+            ds = case.get("zero", "PT0S")
+            rest = Fraction(4, 10) if ds == "PT0,0000004S" else Fraction(0)
         lo, hi = (rest.numerator // rest.denominator), -((-rest.numerator) // rest.denominator)
         try:
             cands = {fields(model_shift(wall, 1 if form == "start/duration" else -1, c["y"], c["mo"], v)) for v in {lo, hi} if abs(Fraction(v) - rest) <= Fraction(1, 2)}
